@@ -71,9 +71,11 @@ def run(repo: Repo, rep: Report, tier: str) -> None:
             if cdt is None:
                 raise AnalysisError(f"{fq_a}: CommandDataSetType not definitely assigned on a path")
             outs.add((cdt[1], env.get("self.data_set"), env.get("self._data_set_path")))
-        if len(outs) != 1:
-            raise AnalysisError(f"{fq_a}: {len(outs)} abstract outcomes for one input point: {outs}")
-        return outs.pop()
+        if not outs:
+            raise AnalysisError(f"{fq_a}: no normal exit for an input point")
+        # more than one outcome: the announcement depends on something the abstraction does not model (a
+        # file size, a length ...); the sender must then agree with *each* of them
+        return sorted(outs, key=repr)
 
     # ---- predicate B --------------------------------------------------------
     cfg_b = CFG(enc, body=body_nodoc(enc), may_raise=lambda node: False)
@@ -138,22 +140,23 @@ def run(repo: Repo, rep: Report, tier: str) -> None:
             reachable, why = False, "chunked-send path is only set on C_STORE, which may carry a data set"
         if path == OBJ and has_kw and ds != NONE and path_only_with_none_ds:
             reachable, why = False, "chunked send leaves the data-set parameter None (premise checked)"
-        cdt, ds_after, path_after = run_a(has_kw, ds, path)
-        a = cdt != 0x0101
-        b = run_b(ds_after, path_after)
-        if b is None:
-            n_reach += 1  # analysed, verdict deferred
-            continue
-        inst = f"kind={'may-carry' if has_kw else 'never'}, data_set={ds or '-'}, path={'set' if path == OBJ else 'None'}"
-        rep.sample({"point": inst, "CommandDataSetType": hex(cdt), "announces": a, "fragments_sent": b, "reachable": reachable})
-        if not reachable:
-            rep.ok("presence-agreement", f"[unreachable] {inst}", why)
-            continue
-        n_reach += 1
-        if a == b:
-            rep.ok("presence-agreement", inst, f"CommandDataSetType=0x{cdt:04X}, data fragments={b}")
-        else:
-            rep.fail("presence-agreement", fq_a, f"point {inst}: announces={a}, sends={b}", f"command set announces {'a' if a else 'no'} data set (CommandDataSetType=0x{cdt:04X}) but encode_msg sends {'data-set fragments' if b else 'none'}: the peer never completes (or mis-frames) the message", mod=mod, node=p2m)
+        outcomes = run_a(has_kw, ds, path)
+        for cdt, ds_after, path_after in outcomes:
+            a = cdt != 0x0101
+            b = run_b(ds_after, path_after)
+            if b is None:
+                n_reach += 1  # analysed, verdict deferred
+                continue
+            inst = f"kind={'may-carry' if has_kw else 'never'}, data_set={ds or '-'}, path={'set' if path == OBJ else 'None'}" + (f", outcome 0x{cdt:04X} of {len(outcomes)}" if len(outcomes) > 1 else "")
+            rep.sample({"point": inst, "CommandDataSetType": hex(cdt), "announces": a, "fragments_sent": b, "reachable": reachable})
+            if not reachable:
+                rep.ok("presence-agreement", f"[unreachable] {inst}", why)
+                continue
+            n_reach += 1
+            if a == b:
+                rep.ok("presence-agreement", inst, f"CommandDataSetType=0x{cdt:04X}, data fragments={b}")
+            else:
+                rep.fail("presence-agreement", fq_a, f"point {inst}: announces={a}, sends={b}", f"command set announces {'a' if a else 'no'} data set (CommandDataSetType=0x{cdt:04X}) but encode_msg sends {'data-set fragments' if b else 'none'}: the peer never completes (or mis-frames) the message", mod=mod, node=p2m)
     rep.floor("reachable abstract points", n_reach, 5)
     rep.extra["exhaustive"] = True
     rep.extra["points"] = len(points)
